@@ -260,7 +260,11 @@ def run_case(case):
             if d:
                 viol = dict(d, oracle="pushdown_vs_pandas", pred=f"{sh}:{combo}", proj=proj, user_filters=user_f, classes=progcase.plan_classes(qo.expr))
                 try:
-                    flt = rn[0].operand("filters") or []
+                    flt = next((x.operand("filters") for x in rn if x.operand("filters")), None) or []
+                    if not (hasattr(got, "columns") and "rid" in got.columns) and not (isinstance(got, pd.Series) and got.name == "rid"):
+                        # the projection dropped the row id: recompute the same filter unprojected, only to name the missing rows
+                        got = concat_parts(exec_ref(rr[eval_pred(sh, combo, rr)].optimize().expr))
+                        exp = base[eval_pred(sh, combo, base)]
                     tuples = [t for conj in flt for t in (conj if isinstance(conj, (list, tuple)) and conj and isinstance(conj[0], (list, tuple)) else [conj])]
                     ne_cols = sorted({t[0] for t in tuples if t[1] == "!="})
                     if isinstance(exp, pd.Series) and exp.name == "rid" and isinstance(got, pd.Series):
